@@ -14,7 +14,7 @@ use std::ops::Deref;
 use std::ops::DerefMut;
 use std::vec;
 use std::{collections::LinkedList, fmt::Debug};
-use unicode_width::{UnicodeWidthChar, UnicodeWidthStr};
+use unicode_width::UnicodeWidthChar;
 
 /// Context to use during tree parsing.
 /// This mainly gives access to a Renderer, but needs to be able to push
@@ -130,14 +130,25 @@ pub struct TaggedString<T> {
     pub tag: T,
 }
 
+/// The display width of a string as the layout counts it: the sum of the
+/// widths of its characters.  (`UnicodeWidthStr::width` also looks at
+/// sequences - an emoji followed by U+FE0F counts 2 where its characters
+/// count 1 + 0 - and text is laid out character by character.)
+fn str_width(s: &str) -> usize {
+    s.chars()
+        .map(|c| UnicodeWidthChar::width(c).unwrap_or(0))
+        .sum()
+}
+
 impl<T: Debug + PartialEq> TaggedString<T> {
-    /// Returns the tagged string’s display width in columns.
+    /// Returns the tagged string’s display width in columns: the sum of the
+    /// widths of its characters.
     ///
-    /// See [`unicode_width::UnicodeWidthStr::width`][] for more information.
+    /// See [`unicode_width::UnicodeWidthChar::width`][] for more information.
     ///
-    /// [`unicode_width::UnicodeWidthStr::width`]: https://docs.rs/unicode-width/latest/unicode_width/trait.UnicodeWidthStr.html
+    /// [`unicode_width::UnicodeWidthChar::width`]: https://docs.rs/unicode-width/latest/unicode_width/trait.UnicodeWidthChar.html
     pub fn width(&self) -> usize {
-        self.s.width()
+        str_width(&self.s)
     }
 }
 
@@ -187,7 +198,7 @@ impl<T: Debug + Eq + PartialEq + Clone + Default> TaggedLine<T> {
 
     /// Create a new TaggedLine from a string and tag.
     pub fn from_string(s: String, tag: &T) -> TaggedLine<T> {
-        let len = UnicodeWidthStr::width(s.as_str());
+        let len = str_width(s.as_str());
         TaggedLine {
             v: vec![TaggedLineElement::Str(TaggedString {
                 s,
@@ -224,7 +235,7 @@ impl<T: Debug + Eq + PartialEq + Clone + Default> TaggedLine<T> {
         use self::TaggedLineElement::Str;
 
         if !ts.s.is_empty() {
-            self.len += UnicodeWidthStr::width(ts.s.as_str());
+            self.len += str_width(ts.s.as_str());
             if let Some(Str(ts_prev)) = self.v.last_mut() {
                 if ts_prev.tag == ts.tag {
                     ts_prev.s.push_str(&ts.s);
@@ -259,7 +270,7 @@ impl<T: Debug + Eq + PartialEq + Clone + Default> TaggedLine<T> {
     fn insert_front(&mut self, ts: TaggedString<T>) {
         use self::TaggedLineElement::Str;
 
-        self.len += UnicodeWidthStr::width(ts.s.as_str());
+        self.len += str_width(ts.s.as_str());
 
         if let Some(Str(ts1)) = self.v.get_mut(0) {
             if ts1.tag == ts.tag {
@@ -1273,7 +1284,7 @@ impl<D: TextDecorator> SubRenderer<D> {
                 let s = ts.s.replace('\n', " ");
                 let tag = vec![ts.tag];
 
-                let width = s.width();
+                let width = str_width(&s);
                 if self.options.wrap_links && pos + width > self.width {
                     // split the string and start a new line
                     let mut buf = String::new();
